@@ -52,6 +52,8 @@ pub struct Probe<T> {
     pub err: DynErr,
     pub err_id: i32,
     pub subscribed: Mutex<bool>,
+    /// the last error value received (for oracles that need to downcast it)
+    pub last_err: Mutex<Option<DynErr>>,
 }
 
 impl<T: Repr + Send + Sync + 'static> Probe<T> {
@@ -68,6 +70,7 @@ impl<T: Repr + Send + Sync + 'static> Probe<T> {
             err,
             err_id,
             subscribed: Mutex::new(false),
+            last_err: Mutex::new(None),
         })
     }
 
@@ -110,6 +113,7 @@ impl<T: Repr + Send + Sync + 'static> Probe<T> {
                 let _f = self.world.enter(self.edge, Dir::Down, Kind::Terminate, Val::none(), -1);
             },
             Message::Error(e) => {
+                *self.last_err.lock().unwrap() = Some(Arc::clone(&e));
                 let id = self.world.err_id(&e);
                 let _f = self.world.enter(self.edge, Dir::Down, Kind::Error, Val::none(), id);
             },
